@@ -39,7 +39,11 @@ def skeleton(tag: str) -> Tuple[str, str, Dict[str, str]]:
     files = {
         f'{pa}/__init__.py': f'"ID:{pa}"\nfrom .b import Kb as Rb\nclass Ka:\n    "ID:Ka"\n',
         f'{pa}/b.py': f'"ID:{pa}.b"\nclass Kb:\n    "ID:Kb"\n    class Nb:\n        "ID:Nb"\n        def mn(self): "ID:mn"\n    def mb(self): "ID:mb"\ndef fb(): "ID:fb"\nvb = 1\n__all__=["Kb","fb"]\n',
-        f'{pa}/c.py': f'"ID:{pa}.c"\nclass Kc:\n    "ID:Kc"\n    def mc(self): "ID:mc"\ndef fc(): "ID:fc"\n_hc = 1\n',
+        f'{pa}/c.py': (f'"ID:{pa}.c"\nclass Kc:\n    "ID:Kc"\n    def mc(self): "ID:mc"\ndef fc(): "ID:fc"\n_hc = 1\n'
+                       'class Base0:\n    "ID:Base0"\n    def render(self): "ID:Base0.render"\n    def only_base(self): "ID:Base0.only_base"\n'
+                       'class Left0(Base0):\n    "ID:Left0"\nclass Right0(Base0):\n    "ID:Right0"\n    def render(self): "ID:Right0.render"\n'
+                       'class Widget0(Left0, Right0):\n    "ID:Widget0"\nclass Page0(Widget0):\n    "ID:Page0"\n'),
+        f'{pa}/emp.py': f'"ID:{pa}.emp"\n__all__ = []\nfrom . import c as mb\nclass He:\n    "ID:He"\ndef fe(): "ID:fe"\n',
         f'{pa}/s/__init__.py': f'"ID:{pa}.s"\nclass Ks:\n    "ID:Ks"\n',
         f'{pa}/s/d.py': f'"ID:{pa}.s.d"\nclass Kd:\n    "ID:Kd"\ndef fd(): "ID:fd"\n',
         f'{pa}/s/u.py': f'"ID:{pa}.s.u"\n',
@@ -61,6 +65,7 @@ def statements(pa: str, qa: str) -> List[str]:
         f'from {qa}.e import Ke', f'import {qa}.e, {pa}.c',
         f'from {pa}.b import Kb\nZ = Kb', f'import {pa}.b\nmm = {pa}.b', f'import {pa}.b\nZ2 = {pa}.b.Kb', f'import {pa}.c as mc0\nZ3 = mc0.Kc\nmc1 = mc0',
         f'from {pa} import b as b0\nZ4 = b0.Kb.Nb',
+        f'from {pa}.emp import *', f'from {pa}.c import Widget0, Page0 as P0', f'import {pa}.c as dm', f'from {pa}.c import Widget0\nclass Mine(Widget0):\n    "ID:Mine"',
     ]
 
 
@@ -152,7 +157,13 @@ def run_case(tag: str, scope_idx: int, stmt_idx: Sequence[int], res: Dict[str, A
                 if val is um:
                     return        # a path that re-enters the consumer's own module is an import cycle of length one: outside the acyclic family
                 if depth < 3 and isinstance(val, (type, types.ModuleType)):
-                    for k, v in list(vars(val).items()):
+                    members = dict(vars(val))
+                    if isinstance(val, type):
+                        # attribute lookup on a class also finds what it inherits, along the MRO
+                        for klass in val.__mro__[1:-1]:
+                            for k, v in vars(klass).items():
+                                members.setdefault(k, v)
+                    for k, v in list(members.items()):
                         if k.startswith('__') or not ident(v) or v is um:
                             continue
                         # completeness through a module alias: the attribute must be DEFINED in that module
@@ -201,6 +212,33 @@ def run_case(tag: str, scope_idx: int, stmt_idx: Sequence[int], res: Dict[str, A
                 elif isinstance(v, types.ModuleType):
                     direct = True      # a module alias itself
                 walk(k, v, 1, False, direct)
+            # names pydoctor binds in this scope through imports although Python binds nothing there
+            own_map = getattr(scope_pd, '_localNameToFullName_map', {})
+            visible = set(bound) | (set(vars(um)) if scope_path else set())
+            # judged only where Python's answer is static: star imports from modules that define __all__
+            star_sources = {}
+            for st in sts:
+                for node in _ast.walk(_ast.parse(st)):
+                    if isinstance(node, _ast.ImportFrom) and any(al.name == '*' for al in node.names):
+                        base = node.module or ''
+                        if node.level:
+                            parts = pkg.split('.')
+                            parts = parts[:len(parts) - (node.level - 1)]
+                            base = '.'.join(parts + ([node.module] if node.module else []))
+                        pym = sys.modules.get(base)
+                        if pym is not None and hasattr(pym, '__all__'):
+                            star_sources[base] = set(pym.__all__)
+            for k in sorted(own_map):
+                if k in visible or k.startswith('_'):
+                    continue
+                src_mod = own_map[k].rsplit('.', 1)[0] if '.' in own_map[k] else ''
+                if src_mod not in star_sources or k in star_sources[src_mod]:
+                    continue
+                r = scope_pd.resolveName(k)
+                if r is not None and isinstance(r.docstring, str) and r.docstring.startswith('ID:'):
+                    res['violations'].append(core.violation(
+                        f'resolves-unbound-name/{sname}/{"+".join(g.split()[0] + ("-star" if "*" in g else "") for g in generic)}',
+                        f'in scope {sname} after {generic}: {k!r} resolves to {r.fullName()} although Python binds no such name there', case))
             if checked:
                 res['nontrivial'].add(core.h(scope_idx, tuple(stmt_idx)))
             if len(res['samples']) < 2 and checked > 2:
